@@ -94,6 +94,39 @@ Proof.
   now apply negb_true_iff in Hn.
 Qed.
 
+(** ** positional %-formatting: when the template has exactly as many [%s] as
+    there are values (and no [%(key)s]) it succeeds and every value is in the result *)
+Definition not_fkey (i : fmtitem) : bool := match i with FKey _ => false | _ => true end.
+Definition tuple_ok (items : list fmtitem) (n : nat) : bool :=
+  forallb not_fkey items && Nat.eqb (length (filter is_fpos items)) n.
+
+Lemma fmt_tuple_total : forall items ts, tuple_ok items (length ts) = true ->
+  exists r, fmt_tuple items ts = Some r /\ forall t, In t ts -> infix t r.
+Proof.
+  unfold tuple_ok. induction items as [|it items IH]; intros ts H.
+  - apply andb_prop in H. destruct H as [_ H]. apply Nat.eqb_eq in H. cbn in H.
+    destruct ts; [|discriminate]. exists []. split; [reflexivity | intros t []].
+  - apply andb_prop in H. destruct H as [Hk Hn]. cbn [forallb] in Hk. apply andb_prop in Hk.
+    destruct Hk as [Hk1 Hk]. destruct it as [c| |k]; [| |discriminate].
+    + cbn [filter is_fpos] in Hn. destruct (IH ts) as (r & Hr & Hin); [now rewrite Hk, Hn|].
+      exists (c :: r). cbn [fmt_tuple]. rewrite Hr. split; [reflexivity|].
+      intros t Ht. now apply infix_cons, Hin.
+    + cbn [filter is_fpos length] in Hn. destruct ts as [|a ts]; [discriminate|]. cbn [length] in Hn.
+      destruct (IH ts) as (r & Hr & Hin); [now rewrite Hk; exact Hn|].
+      exists (a ++ r). cbn [fmt_tuple]. rewrite Hr. split; [reflexivity|].
+      intros t [<-|Ht]; [apply infix_prefix | now apply infix_app_l, Hin].
+Qed.
+
+Lemma tuple_ok_pos : forall items n, tuple_ok items (S n) = true -> existsb is_fpos items = true.
+Proof.
+  unfold tuple_ok. intros items n H. apply andb_prop in H. destruct H as [_ H]. apply Nat.eqb_eq in H.
+  induction items as [|it items IH] in n, H |- *; [discriminate|]. cbn [filter existsb] in *.
+  destruct (is_fpos it); [reflexivity|]. now apply (IH n).
+Qed.
+
+(** a replacement string goes through %-formatting when it contains ['%'] and is not just ["%"] *)
+Definition tmpl_active (tmpl : str) : bool := mem_c 37 tmpl && negb (Nat.eqb (length tmpl) 1).
+
 (** * Exact text of the filtered node classes *)
 Section Exact.
   Variable src : str.
@@ -269,6 +302,75 @@ Section Exact.
     | Some t => no_repl (t_repl t) && negb (t_discard t)
     end.
 
+  (** macro / specials / environment rendered through a positional template that
+      has exactly one [%s] per argument slot (per body, for an environment) *)
+  Definition tmpl_pos_ok (ts : option tspec) (n : nat) : bool :=
+    match ts with
+    | Some t => match t_repl t with
+                | RStr tmpl => tmpl_active tmpl
+                               && match parse_fmt (S (length tmpl)) tmpl with
+                                  | Some items => tuple_ok items n
+                                  | None => false end
+                | _ => false end
+    | None => false
+    end.
+  Definition macro_tmpl_pos (nm : str) (nargs : nat) : bool :=
+    tmpl_pos_ok (assoc (lt_macros lt) nm) (Nat.max nargs (nslots_of (get_macro_spec cx nm))).
+  Definition specials_tmpl_pos (ch : str) (nargs : nat) : bool :=
+    tmpl_pos_ok (assoc (lt_specials lt) ch) (Nat.max nargs (nslots_of (get_specials_spec cx ch))).
+  Definition env_tmpl_pos (nm : str) : bool := tmpl_pos_ok (assoc (lt_envs lt) nm) 1.
+
+  Lemma args_texts_length : forall l sl st, length (fst (args_texts_g nt sl st l)) = length l.
+  Proof.
+    induction l as [|a r IH]; intros sl st; [reflexivity|]. rewrite args_texts_cons.
+    destruct (arg_text_g nt sl st a) as [t0 st1]. specialize (IH sl st1).
+    destruct (args_texts_g nt sl st1 r) as [ts st2]. cbn [fst length] in *. now rewrite IH.
+  Qed.
+
+  Lemma generic_tmpl_pos_args : forall ts dd nn a k sl st,
+    tmpl_pos_ok ts (Nat.max (length (argn_of a)) k) = true -> 1 <= length (argn_of a) ->
+    exists r, fst (generic_g src lt o nt sl st ts dd nn a k None) = r
+              /\ forall tx, In tx (fst (atexts_g nt sl st a)) -> infix tx r.
+  Proof.
+    intros ts dd nn a k sl st Hok Hlen. unfold tmpl_pos_ok in Hok.
+    destruct ts as [t0|]; [|discriminate]. unfold generic_g.
+    destruct (t_repl t0) as [|tmpl|c]; try discriminate.
+    apply andb_prop in Hok. destruct Hok as [Hact Hok].
+    destruct (parse_fmt (S (length tmpl)) tmpl) as [items|] eqn:Ep; [|discriminate].
+    destruct tmpl as [|c0 tl]; [discriminate|].
+    unfold str_repl_g. unfold tmpl_active in Hact. rewrite Hact, Ep.
+    assert (Hpos : existsb (fun i => match i with FPos => true | _ => false end) items = true).
+    { destruct (Nat.max (length (argn_of a)) k) as [|n] eqn:En; [lia|]. exact (tuple_ok_pos items n Hok). }
+    rewrite Hpos.
+    assert (Hl : length (fst (atexts_g nt sl st a)) = length (argn_of a)).
+    { destruct a as [[sp l]|]; [apply args_texts_length | reflexivity]. }
+    destruct (atexts_g nt sl st a) as [ts0 st1]. cbn [fst] in *.
+    set (ts1 := ts0 ++ repeat [] (k - length ts0)).
+    assert (Hl1 : length ts1 = Nat.max (length (argn_of a)) k).
+    { unfold ts1. rewrite app_length, repeat_length. lia. }
+    rewrite <- Hl1 in Hok. destruct (fmt_tuple_total items ts1 Hok) as (r & Hr & Hin).
+    exists r. rewrite Hr. split; [reflexivity|]. intros tx Htx. apply Hin. unfold ts1. apply in_or_app. now left.
+  Qed.
+
+  Lemma generic_tmpl_pos_body : forall ts dd nn a k b sl st,
+    tmpl_pos_ok ts 1 = true ->
+    infix (fst (body_text_g nt sl st b)) (fst (generic_g src lt o nt sl st ts dd nn a k (Some b))).
+  Proof.
+    intros ts dd nn a k b sl st Hok. unfold tmpl_pos_ok in Hok.
+    destruct ts as [t0|]; [|discriminate]. unfold generic_g.
+    destruct (t_repl t0) as [|tmpl|c]; try discriminate.
+    apply andb_prop in Hok. destruct Hok as [Hact Hok].
+    destruct (parse_fmt (S (length tmpl)) tmpl) as [items|] eqn:Ep; [|discriminate].
+    destruct tmpl as [|c0 tl]; [discriminate|].
+    unfold str_repl_g. unfold tmpl_active in Hact. rewrite Hact, Ep.
+    assert (Hpos : existsb (fun i => match i with FPos => true | _ => false end) items = true)
+      by exact (tuple_ok_pos items 0 Hok).
+    rewrite Hpos.
+    destruct (body_text_g nt sl st b) as [bt st1]. cbn [fst].
+    destruct (fmt_tuple_total items [bt] Hok) as (r & Hr & Hin). rewrite Hr. cbn [fst].
+    apply Hin. now left.
+  Qed.
+
   Section Covered.
     Variable thru_math : bool.       (* also follow bodies of formulas in the modes that render them *)
     Variable leaf : node -> Prop.
@@ -284,6 +386,12 @@ Section Exact.
         In (Some x) l -> covered x -> covered (NMacro p e m nm ps (Some (sp, l)))
     | cov_specials : forall p e m ch sp l x, specials_concat ch = true ->
         In (Some x) l -> covered x -> covered (NSpecials p e m ch (Some (sp, l)))
+    | cov_macro_tmpl : forall p e m nm ps sp l x, macro_tmpl_pos nm (length l) = true ->
+        In (Some x) l -> covered x -> covered (NMacro p e m nm ps (Some (sp, l)))
+    | cov_specials_tmpl : forall p e m ch sp l x, specials_tmpl_pos ch (length l) = true ->
+        In (Some x) l -> covered x -> covered (NSpecials p e m ch (Some (sp, l)))
+    | cov_env_tmpl : forall p e m nm a bp be l x, env_tmpl_pos nm = true ->
+        In (Some x) l -> covered x -> covered (NEnv p e m nm a (Some (NList bp be l)))
     | cov_math : forall p e m d dl dr bp be l x, thru_math = true -> math_blind o = false ->
         In (Some x) l -> covered x -> covered (NMath p e m d dl dr (Some (NList bp be l)))
     | cov_eqenv : forall p e m nm a bp be l x, thru_math = true -> math_blind o = false ->
@@ -318,6 +426,18 @@ Section Exact.
         destruct (args_texts_g nt sl st1 r) as [ts st2]. cbn [fst concat] in *. now apply infix_app_r.
       - destruct (arg_text_g nt sl st y) as [t st1]. specialize (IH x Hin Hx sl st1).
         destruct (args_texts_g nt sl st1 r) as [ts st2]. cbn [fst concat] in *. now apply infix_app_l.
+    Qed.
+
+    Lemma args_in : forall l x, In (Some x) l ->
+      (forall sl st, infix w (fst (arg_text_g nt sl st (Some x)))) ->
+      forall sl st, exists t, In t (fst (args_texts_g nt sl st l)) /\ infix w t.
+    Proof.
+      induction l as [|y r IH]; intros x Hin Hx sl st; [contradiction|].
+      rewrite args_texts_cons. destruct Hin as [->|Hin].
+      - specialize (Hx sl st). destruct (arg_text_g nt sl st (Some x)) as [t st1].
+        destruct (args_texts_g nt sl st1 r) as [ts st2]. cbn [fst] in *. exists t. split; [now left | exact Hx].
+      - destruct (arg_text_g nt sl st y) as [t st1]. destruct (IH x Hin Hx sl st1) as (t' & Hin' & Hw).
+        destruct (args_texts_g nt sl st1 r) as [ts st2]. cbn [fst] in *. exists t'. split; [now right | exact Hw].
     Qed.
 
     Lemma generic_concat_infix : forall ts dd,
@@ -356,6 +476,9 @@ Section Exact.
       induction 1 as [n Hl | p e l x Hin Hc [IH1 IH2] | p e m dl dr bp be l x Hin Hc [IH1 IH2]
                      | p e m nm a bp be l x Ht Hin Hc [IH1 IH2] | p e m nm ps sp l x Ht Hin Hc [IH1 IH2]
                      | p e m ch sp l x Ht Hin Hc [IH1 IH2]
+                     | p e m nm ps sp l x Ht Hin Hc [IH1 IH2]
+                     | p e m ch sp l x Ht Hin Hc [IH1 IH2]
+                     | p e m nm a bp be l x Ht Hin Hc [IH1 IH2]
                      | p e m d dl dr bp be l x Htm Hnb Hin Hc [IH1 IH2]
                      | p e m nm a bp be l x Htm Hnb Hq Hin Hc [IH1 IH2]].
       - split; intros sl st; now apply Hleaf.
@@ -390,6 +513,32 @@ Section Exact.
           rewrite generic_concat_infix; [|exact Ht].
           cbn [atexts_g]. assert (Ha := args_infix l x Hin IH2 sl st).
           destruct (args_texts_g nt sl st l) as [ts st1]. exact Ha. }
+        split; [exact Hn|]. intros sl st. exact (Hn sl st).
+      - (* macro, positional template *)
+        assert (Hn : forall sl st, infix w (fst (nt sl st (NMacro p e m nm ps (Some (sp, l)))))).
+        { intros sl st. unfold nt. rewrite node_text_step. cbn [node_step]. fold nt.
+          assert (Hlen : 1 <= length l) by (destruct l; [contradiction | cbn; lia]).
+          destruct (generic_tmpl_pos_args (assoc (lt_macros lt) nm) true (NMacro p e m nm ps (Some (sp, l)))
+                      (Some (sp, l)) (nslots_of (get_macro_spec cx nm)) sl st Ht Hlen) as (r & Hr & Hall).
+          rewrite Hr. destruct (args_in l x Hin IH2 sl st) as (t & Hint & Hwt).
+          eapply infix_trans; [exact Hwt|]. apply Hall. exact Hint. }
+        split; [exact Hn|]. intros sl st. exact (Hn sl st).
+      - (* specials, positional template *)
+        assert (Hn : forall sl st, infix w (fst (nt sl st (NSpecials p e m ch (Some (sp, l)))))).
+        { intros sl st. unfold nt. rewrite node_text_step. cbn [node_step]. fold nt.
+          unfold specials_tmpl_pos in Ht.
+          destruct (assoc (lt_specials lt) ch) as [t0|] eqn:Ea; [|discriminate].
+          assert (Hlen : 1 <= length l) by (destruct l; [contradiction | cbn; lia]).
+          destruct (generic_tmpl_pos_args (Some t0) true (NSpecials p e m ch (Some (sp, l)))
+                      (Some (sp, l)) (nslots_of (get_specials_spec cx ch)) sl st Ht Hlen) as (r & Hr & Hall).
+          rewrite Hr. destruct (args_in l x Hin IH2 sl st) as (t & Hint & Hwt).
+          eapply infix_trans; [exact Hwt|]. apply Hall. exact Hint. }
+        split; [exact Hn|]. intros sl st. exact (Hn sl st).
+      - (* environment, positional template *)
+        assert (Hn : forall sl st, infix w (fst (nt sl st (NEnv p e m nm a (Some (NList bp be l)))))).
+        { intros sl st. unfold nt. rewrite node_text_step. cbn [node_step]. fold nt.
+          eapply infix_trans; [|apply generic_tmpl_pos_body; exact Ht].
+          cbn [body_text_g]. now apply (items_infix l x). }
         split; [exact Hn|]. intros sl st. exact (Hn sl st).
       - assert (Hn : forall sl st, infix w (fst (nt sl st (NMath p e m d dl dr (Some (NList bp be l)))))).
         { intros sl st. unfold nt. rewrite node_text_step. cbn [node_step]. fold nt.
